@@ -2,6 +2,7 @@
    and the in-Coq cross-check (cases.v, vm_compute) both call. *)
 From Coq Require Import List NArith ZArith Bool.
 Import ListNotations.
+From RV Require Core.Defer.
 From RV Require Import Base.Str Base.PathLex Path.Clean Path.CleanSpec Path.Relative Path.Helpers Path.HelpersFacts Core.Iter File.MemFile Path.Expand Path.Abs Xdg.Dirs Chmod.Sym.
 From stdpp Require gmap.
 From RV Require Import Memfs.State Memfs.Ops Memfs.Step Memfs.Wf Memfs.WfB Memfs.Handles Macros.Asserts.
@@ -59,6 +60,7 @@ Definition api_trim_protocol := trim_protocol.
 Definition api_kf_ext_class := kf_ext_class.
 
 (* ---- C19 ---- *)
+Definition api_defer_run := Core.Defer.run.
 Definition nseq (len : nat) : list N := map N.of_nat (seq 0 len).
 Definition api_it_drop (len : nat) (n : Z) := Iter.drop n (nseq len).
 Definition api_it_drop_spec (len : nat) (n : Z) := drop_spec n (nseq len).
